@@ -10,6 +10,7 @@ import Y0.Driver.Latent
 import Y0.Driver.Cf
 import Y0.Driver.Ctf
 import Y0.Driver.Transport
+import Y0.Driver.Tian
 
 open Y0 Y0.Driver
 
@@ -26,6 +27,7 @@ def dispatch (line : String) : String :=
       | "cf" => handleCf op args
       | "ctf" => handleCtf op args
       | "transport" => handleTransport op args
+      | "tian" => handleTian op args
       | _ => none
     match r with
     | some s => toString s
